@@ -1,6 +1,11 @@
-"""C01 -- pilot resources are never oversubscribed (agent scheduler part)."""
+"""C01 -- pilot resources are never oversubscribed.
+Scheduler side  : the agent scheduler's node map over random histories (harness/schedlib.py).
+Application side: `Pilot.nodelist` (resource_config.NodeList / Node), the helper with which an application chooses
+the placements it supplies in TaskDescription.slots -- sequences of find_slots / release_slots on one thread and
+pairs of calls on two threads (harness/appslots.py)."""
 from . import schedlib as SL
 from .core import Prop, rp_import
+from .sides import Sides, Spec
 
 
 class SchedProp(Prop):
@@ -144,7 +149,7 @@ class SchedProp(Prop):
                     with_application_supplied_slots=pre, undisciplined=undis, events=kinds)
 
 
-class C01(SchedProp):
+class C01Sched(SchedProp):
     id = 'C01'
     module = 'c01'
     props_files = ['Props/C01.v']
@@ -156,6 +161,27 @@ class C01(SchedProp):
             'cores/GPU shares/lfs/mem per rank, ranks_per_node, colocate/exclusive tags, priorities, named envs, '
             'application-supplied slots; cancels, releases, iterations); non-trivial = at some point >= 2 tasks hold '
             'resources simultaneously and >= 1 task waited')
+
+
+APP_TRUSTED = ('application side: harness/appslots.py (real resource_config.Node / NodeList objects; pairs of calls on '
+               'two real threads, one held by a line tracer after its k-th line, harness/interleave.py); answers and '
+               'the complete node list after every call compared with RP.AppSlots.Model.run inside Coq; occupations '
+               'generated as multiples of 1/64 (exact floats)')
+APP_RULE = ('application side: node lists of 1-4 nodes x 1-6 cores x 0-3 GPUs (DOWN / busy / partly used resources, '
+            'lfs/mem, unique and repeated node names, node ids equal to and different from list positions), sequences '
+            'of 2-16 find_slots / release_slots / verify / Node-level calls')
+
+
+class C01(Sides, C01Sched):
+    # the placements an application supplies come from Pilot.nodelist: no sequence of find_slots / release_slots
+    # hands out more than a node has, and two threads asking at once do not get the same cores
+    side_specs = [Spec('app', 'appslots', ['no_oversubscription', 'linearizable'],
+                       only=lambda c: isinstance(c, dict) and c.get('kind') in ('seq', 'pair'))]
+    clauses = C01Sched.clauses + side_specs[0].clause_names()
+    extra_targets = C01Sched.extra_targets + ['AppSlots/Oracle.vo', 'AppSlots/Proofs.vo']
+    model_targets = C01Sched.model_targets + ['AppSlots/Oracle.vo']
+    trusted = C01Sched.trusted + [APP_TRUSTED]
+    rule = C01Sched.rule + '; ' + APP_RULE + '; pairs of find_slots / release_slots calls in two threads at every hold point'
 
 
 PROP = C01()
